@@ -1865,7 +1865,8 @@ fn judge(run: &Run, hist: &Hist, i: u64, seed: u64, o: &CaseOut) {
 pub fn main(args: Args) {
     let run = Arc::new(Run::new(
         args.clone(),
-        "exploration",
+        // a replay re-runs one recorded case: not a coverage claim
+        if args.replay.is_some() { "other" } else { "exploration" },
         "LoopLab: random 1-3 level designs (signals 1-8 bits; assign with bit/part selects on both sides, array elements at constant \
          index, struct members, concatenation; always_comb with defaults then partial/whole reassignment under if/else, nested if, case \
          with and without default; pure functions with local reassignment; instances with feed-through, registered and mixed child ports; \
@@ -1884,6 +1885,7 @@ pub fn main(args: Args) {
     }
     let hist = Arc::new(Hist::default());
     if let Some(rp) = &args.replay {
+        run.set_extra("explanation", json!("replay of one recorded case against the current tree; no coverage is claimed"));
         let v: Json = serde_json::from_str(&std::fs::read_to_string(rp).expect("replay file")).expect("replay json");
         let seed = v["case"]["seed"].as_u64().unwrap_or(args.seed);
         let i = v["case"]["case_index"].as_u64().expect("case_index");
